@@ -15,110 +15,39 @@ Proof. unfold lenN. rewrite app_length. lia. Qed.
 Lemma lenN_map {A B} (f : A -> B) l : lenN (map f l) = lenN l.
 Proof. unfold lenN. rewrite map_length. reflexivity. Qed.
 
-(* ---- live ---- *)
-Lemma live_app a b : live (a ++ b) = live a ++ live b.
-Proof. unfold live. rewrite filter_app, map_app. reflexivity. Qed.
-Lemma live_all l : live (map (fun r : txrec => (r, true)) l) = l.
-Proof. unfold live. induction l as [|x l IH]; simpl; auto. f_equal; exact IH. Qed.
-Lemma live_incl t r : In r (live t) -> In r (map fst t).
-Proof.
-  unfold live. intros I. apply in_map_iff in I as [[x b] [E I]]. apply filter_In in I as [I _].
-  apply in_map_iff. exists (x, b); auto.
-Qed.
-
-(* ---- take_live / may_commit ---- *)
-Lemma take_live_spec : forall t n a b, take_live n t = (a, b) ->
-  a ++ live b = live t /\ (forall r, In r (map fst b) -> In r (map fst t)).
-Proof.
-  induction t as [|[r f] t IH]; intros n a b E.
-  - destruct n; simpl in E; inversion E; subst; simpl; auto.
-  - destruct n as [|n].
-    + simpl in E. inversion E; subst. simpl. auto.
-    + simpl in E. destruct f.
-      * destruct (take_live n t) as [a' b'] eqn:E'. inversion E; subst.
-        destruct (IH _ _ _ E') as [I1 I2]. split.
-        -- unfold live in *. simpl. rewrite <- I1. reflexivity.
-        -- intros x Hx. right. auto.
-      * destruct (IH _ _ _ E) as [I1 I2]. split.
-        -- unfold live in *. simpl. exact I1.
-        -- intros x Hx. right. auto.
-Qed.
-
 Section L.
 Variable H : bytes -> bytes.
 
+(* ---- may_commit ---- *)
 Lemma may_commit_chain c st : chain (may_commit c st) = chain st.
 Proof.
   unfold may_commit.
   destruct ((if c_ext c then s_allowed st else pre_id st) - com_id st =? 0); auto.
-  destruct (take_live _ _) as [a b] eqn:E. destruct (lenN a <? _); auto. unfold chain. simpl.
-  destruct (take_live_spec _ _ _ _ E) as [E1 _]. rewrite <- app_assoc, E1. reflexivity.
+  destruct (lenN (s_tail st) <? _); auto. unfold chain. cbn [s_com s_tail].
+  rewrite <- app_assoc, firstn_skipn. reflexivity.
 Qed.
 Lemma may_commit_ghost c st : s_ghost (may_commit c st) = s_ghost st.
 Proof.
-  unfold may_commit. destruct (_ =? 0); auto. destruct (take_live _ _). destruct (_ <? _); reflexivity.
+  unfold may_commit. destruct (_ =? 0); auto. destruct (_ <? _); reflexivity.
 Qed.
-Lemma may_commit_tail_incl c st r :
-  In r (map fst (s_tail (may_commit c st))) -> In r (map fst (s_tail st)).
+Lemma In_skipn' {A} : forall (l : list A) n x, In x (skipn n l) -> In x l.
+Proof. induction l as [|y l IH]; intros [|n] x I; simpl in *; auto. right. eauto. Qed.
+Lemma may_commit_tail_incl c st r : In r (s_tail (may_commit c st)) -> In r (s_tail st).
 Proof.
-  unfold may_commit. destruct (_ =? 0); auto. destruct (take_live _ _) as [a b] eqn:E.
-  destruct (_ <? _); auto. simpl.
-  destruct (take_live_spec _ _ _ _ E) as [_ I]. auto.
-Qed.
-(* the committed list only grows, by records that were live *)
-Lemma may_commit_com c st : exists a, s_com (may_commit c st) = s_com st ++ a.
-Proof.
-  unfold may_commit. destruct (_ =? 0).
-  - exists []. rewrite app_nil_r. reflexivity.
-  - destruct (take_live _ _) as [a b]. destruct (_ <? _).
-    + exists []. rewrite app_nil_r. reflexivity.
-    + exists a. reflexivity.
+  unfold may_commit. destruct (_ =? 0); auto. destruct (_ <? _); auto. cbn [s_tail]. apply In_skipn'.
 Qed.
 (* either nothing happens, or at least one record is committed *)
 Lemma may_commit_cases c st : may_commit c st = st \/ s_com (may_commit c st) <> [].
 Proof.
   unfold may_commit. destruct (N.eqb_spec ((if c_ext c then s_allowed st else pre_id st) - com_id st) 0); auto.
-  destruct (take_live _ _) as [a b]. destruct (N.ltb_spec (lenN a) ((if c_ext c then s_allowed st else pre_id st) - com_id st)); auto.
-  right. simpl. destruct a; [unfold lenN in *; simpl in *; lia|]. destruct (s_com st); discriminate.
+  destruct (N.ltb_spec (lenN (s_tail st)) ((if c_ext c then s_allowed st else pre_id st) - com_id st)); auto.
+  right. cbn [s_com]. destruct (s_tail st) as [|x t]; [unfold lenN in *; simpl in *; lia|].
+  destruct (N.to_nat _) eqn:E; [lia|]. simpl. destruct (s_com st); discriminate.
 Qed.
 Lemma may_commit_pre_id c st : pre_id (may_commit c st) = pre_id st.
 Proof. unfold pre_id. rewrite may_commit_chain. reflexivity. Qed.
 Lemma may_commit_pre_alh c st : pre_alh H (may_commit c st) = pre_alh H st.
 Proof. unfold pre_alh. rewrite may_commit_chain. reflexivity. Qed.
-
-(* ---- kill_last ---- *)
-Lemma kill_go_fst : forall t k,
-  map fst ((fix go (k : nat) (t : list (txrec * bool)) : list (txrec * bool) :=
-     match t with
-     | [] => []
-     | (r, true) :: t' => match k with O => (r, false) :: go O t' | S k' => (r, true) :: go k' t' end
-     | (r, false) :: t' => (r, false) :: go k t'
-     end) k t) = map fst t.
-Proof.
-  induction t as [|[r f] t IH]; intros k; simpl; auto.
-  destruct f; [destruct k|]; simpl; rewrite IH; reflexivity.
-Qed.
-Lemma kill_last_fst n t : map fst (kill_last n t) = map fst t.
-Proof. unfold kill_last. apply kill_go_fst. Qed.
-
-Lemma kill_go_live : forall t k,
-  live ((fix go (k : nat) (t : list (txrec * bool)) : list (txrec * bool) :=
-     match t with
-     | [] => []
-     | (r, true) :: t' => match k with O => (r, false) :: go O t' | S k' => (r, true) :: go k' t' end
-     | (r, false) :: t' => (r, false) :: go k t'
-     end) k t) = firstn k (live t).
-Proof.
-  unfold live. induction t as [|[r f] t IH]; intros k; simpl.
-  - destruct k; reflexivity.
-  - destruct f.
-    + destruct k; simpl; rewrite IH; reflexivity.
-    + simpl. apply IH.
-Qed.
-Lemma kill_last_live n t : live (kill_last n t) = firstn (length (live t) - n) (live t).
-Proof.
-  unfold kill_last. rewrite kill_go_live. f_equal. unfold live. rewrite map_length. reflexivity.
-Qed.
 
 (* ---- reload ---- *)
 (* every reloaded record is a record of the list with its Alh recomputed *)
